@@ -449,6 +449,7 @@ package plenccodec
 //@   safety C04 C11
 //@   assigns[C10,C11] nothing
 //@   writes ptr 24
+//@   ensures[C01,C09] len(data) == 0 ==> err == nil && n == 0 && load64(ptr) == 0 && load64(ptr + 8) == 0 && load64(ptr + 16) == 0      # no body: the zero time
 //@   ensures[C03,C05] err == nil ==> n == len(data)
 //@   loop 1 invariant[C04] 0 <= offset && offset <= l && l == len(data)
 //@   loop 1 decreases l - offset
@@ -458,6 +459,7 @@ package plenccodec
 //@   safety C04 C11
 //@   assigns[C10,C11] nothing
 //@   writes ptr 24
+//@   ensures[C01,C09] len(data) == 0 ==> err == nil && n == 0 && load64(ptr) == 0 && load64(ptr + 8) == 0 && load64(ptr + 16) == 0      # no body: the zero time
 //@   ensures[C03,C05] err == nil ==> n == len(data)
 //@   loop 1 invariant[C04] 0 <= offset && offset <= l && l == len(data)
 //@   loop 1 decreases l - offset
@@ -1005,3 +1007,21 @@ package plenccodec
 //@   ensures[C15] j.depth == len(j.stack) && j.depth >= 0
 //@   ensures[C15] forall k int :: 0 <= k && k < j.depth ==> 0 <= j.stack[k].state && j.stack[k].state <= 2
 //@   ensures[C15] old(j.depth) == 0 ==> bytes(result) == old(bytes(j.data)) ++ "\n"
+
+//@ # ---- ptime: the (seconds, nanoseconds) pair a time is encoded as ---------------------
+//@ func plenccodec.*ptime.Standard
+//@   safety C01
+//@   assigns nothing
+//@   # the decoded instant is the one with these seconds and nanoseconds, in UTC - for every pair, the epoch (0, 0) included
+//@   ensures[C01] result == @time.Time.UTC(@time.Unix(e.Seconds, int64(e.Nanoseconds)))
+
+//@ # ---- the struct codec's descriptor lists the fields in declaration order (C14) -------------
+//@ func plenccodec.*StructCodec.Descriptor
+//@   safety C14
+//@   assigns[C14] H+ B+
+//@   loop 1 invariant[C14] -1 <= rangeindex && rangeindex < len(c.fields) && len(d.Elements) == len(c.fields) && d.Type == 6
+//@   loop 1 invariant[C14] forall k int :: 0 <= k && k <= rangeindex ==> d.Elements[k].Index == c.fields[k].index && d.Elements[k].Name == c.fields[k].name
+//@   loop 1 decreases rangelen - rangeindex
+//@   ensures[C14] result.Type == 6 && len(result.Elements) == len(c.fields)
+//@   # element k describes field k: same index, same name
+//@   ensures[C14] forall k int :: 0 <= k && k < len(c.fields) ==> result.Elements[k].Index == c.fields[k].index && result.Elements[k].Name == c.fields[k].name
